@@ -52,7 +52,7 @@ def judgeClip (L : Lines) (A : Operand) (rhs : Tok) : String :=
   let lk := match L with | .line _ => "LS" | .multi ls => s!"MLS{ls.length}"
   let ok := simplePaths s && Valid A && gpLine s c
   let want := oracleChains c s
-  let ncross := (s.flatMap fun l => (pairs l).flatMap fun e => crossParams c e.1 e.2).length
+  let ncross := (s.flatMap fun l => (pairs l).flatMap fun e => c.flatMap fun r => (edges r).filter fun f => properCross e.1 e.2 f.1 f.2).length
   let cfg :=
     if trivialCase s c then (if s.isEmpty || c.isEmpty then "trivial-empty" else "trivial-boxdisjoint")
     else if ncross = 0 then (if want.isEmpty then "nocross-outside" else "nocross-inside")
@@ -75,6 +75,7 @@ def judgeClip (L : Lines) (A : Operand) (rhs : Tok) : String :=
         let m := clip core L A
         if m ≠ got then s!"DIFF {cls} model-differs (model has {m.length} pieces, implementation {got.length})"
         else if !ok then s!"OK {cls}"
+        else if (want.flatMap pairs) ≠ oracleSegments c s then s!"DIFF {cls} oracle-chains-inconsistent-with-oracleSegments"
         else
           -- emptiness, exactly
           if got.isEmpty ≠ oracleEmpty c s then
